@@ -270,6 +270,12 @@ func c41GenStream(rng *c41Rand, caseIdx, sIdx int, uid *uint64, budget int) *c41
 	if s.TxMode[0] == 'c' {
 		n = 1 + rng.IntN(160)
 	}
+	// part of the concurrently written streams consist of many small packets so
+	// that the 64-entry packet ring actually fills up
+	smallOnly := s.TxMode[0] == 'c' && rng.IntN(5) < 2
+	if smallOnly {
+		n = 80 + rng.IntN(81)
+	}
 	pInv := []float64{0, 0.1, 0.3}[rng.IntN(3)]
 	vmix := rng.IntN(3) // 0 v4, 1 v6, 2 both
 	payload := s.MTU - dataplane.VerifHdrLen
@@ -284,6 +290,9 @@ func c41GenStream(rng *c41Rand, caseIdx, sIdx int, uid *uint64, budget int) *c41
 			minSize = 40
 		}
 		size := c41PickSize(rng, payload, minSize)
+		if smallOnly {
+			size = minSize + rng.IntN(150)
+		}
 		p := &c41Pkt{Size: size}
 		if rng.Float64() < pInv {
 			k := c41InvalidKinds[rng.IntN(len(c41InvalidKinds))]
@@ -341,8 +350,24 @@ func (s *c41Stream) encode(rng *rand.Rand) bool {
 			}
 		}
 	}
+	// The frame reader starts once the writer has offered delayK packets (in
+	// retry mode at the latest when the ring first refuses), so that a full
+	// ring is reached deterministically in part of the streams.
+	delayK := 0
+	if rng.IntN(2) == 0 {
+		delayK = rng.IntN(len(s.Pkts) + 1)
+	}
+	startReader := make(chan struct{})
+	started := false
+	start := func() {
+		if !started {
+			started = true
+			close(startReader)
+		}
+	}
 	out := make(chan [][]byte, 1)
 	go func() {
+		<-startReader
 		var fr [][]byte
 		for {
 			f := enc.Read()
@@ -356,6 +381,9 @@ func (s *c41Stream) encode(rng *rand.Rand) bool {
 	stalled := false
 write:
 	for i, p := range s.Pkts {
+		if i >= delayK {
+			start()
+		}
 		for y := 0; y < yields[i]; y++ {
 			runtime.Gosched()
 		}
@@ -369,6 +397,7 @@ write:
 				s.refuseDrp++
 				break
 			}
+			start()
 			s.refuseTry++
 			if spins%512 == 511 {
 				time.Sleep(100 * time.Microsecond)
@@ -381,6 +410,7 @@ write:
 			}
 		}
 	}
+	start()
 	enc.Close()
 	if stalled {
 		return false
@@ -826,7 +856,7 @@ func (cx *c41Ctx) runCase(idx int) {
 		}
 		r.Class(fmt.Sprintf("lossless/mtu=%s/tx=%s/rx=%s/max-frames-per-pkt=%s/multi-pkt-frames=%v/invalid-mixed=%v/v4=%v/v6=%v",
 			c41MTUBucket(s.MTU), s.TxMode, rx, spanC, s.multiPkt, inv, vers["v4"], vers["v6"]))
-		if r.WantSample() && idx%37 == 3 && len(s.Pkts) <= 12 {
+		if r.WantSample() && idx%7 == 3 && len(s.Pkts) <= 12 && len(s.frames) <= 40 {
 			r.Sample(map[string]any{"phase": "lossless", "stream": s, "emitted": len(out)})
 		}
 	}
@@ -911,7 +941,7 @@ func (cx *c41Ctx) runCase(idx int) {
 			deliv = "none"
 		}
 		r.Class(fmt.Sprintf("fault/%s/rx=%s/cleanup=%v/streams=%d/delivered=%s/redelivered=%v", profile, rx, len(cleanups) > 0, nStreams, deliv, dupDeliv > 0))
-		if r.WantSample() && idx%41 == 7 && len(sched) <= 30 {
+		if r.WantSample() && idx%5 == 2 && len(sched) <= 30 {
 			r.Sample(map[string]any{"phase": "fault", "profile": profile, "schedule": sched, "sent": total, "emitted": len(out), "distinct": len(seen)})
 		}
 	}
